@@ -21,9 +21,9 @@ type Quote struct {
 	UserData            []byte // 20
 
 	TeeTcbSvn, MrSeam, MrSignerSeam, SeamAttributes, TdAttributes, Xfam []byte
-	MrTd, MrConfigID, MrOwner, MrOwnerConfig                           []byte
-	Rtmrs                                                              [4][]byte
-	ReportData                                                         []byte
+	MrTd, MrConfigID, MrOwner, MrOwnerConfig                            []byte
+	Rtmrs                                                               [4][]byte
+	ReportData                                                          []byte
 
 	SignedDataSize uint32
 	Sig, AttKey    []byte // 64, 64
